@@ -69,7 +69,7 @@ func (u *Unit) zeroOfSort(t types.Type, so string) string {
 		ea := u.d.constant("emptyarr_"+mangle(es), "(Array Int "+es+")")
 		return app("mk_"+so, ea, "0", "true")
 	case *types.Array:
-		return app(fmt.Sprintf("(as const %s)", so), u.zero(ut.Elem()).T)
+		return u.zeroArray(u.sortOf(ut.Elem()), u.zero(ut.Elem()).T)
 	case *types.Map:
 		ks, vs := u.sortOf(ut.Key()), u.sortOf(ut.Elem())
 		ea := u.d.constant("emptymap_"+mangle(ks)+"_"+mangle(vs), "(Array "+ks+" "+vs+")")
@@ -998,7 +998,7 @@ func (u *Unit) evalCompositeLit(st *State, x *ast.CompositeLit, t types.Type) Va
 		}
 		return Val{T: u.mkSlice(so, arr, "0", strconv.Itoa(n), "false"), Ty: t, So: so}
 	case *types.Array:
-		arr := app(fmt.Sprintf("(as const %s)", so), u.zero(ut.Elem()).T)
+		arr := u.zeroArray(u.sortOf(ut.Elem()), u.zero(ut.Elem()).T)
 		n := int64(0)
 		for _, el := range x.Elts {
 			if kv, ok := el.(*ast.KeyValueExpr); ok {
@@ -1231,4 +1231,17 @@ func (u *Unit) aliasWrite(st *State, al elemAlias, v Val, pos token.Pos) {
 	arr, _, ln, isnil := u.sliceParts(base)
 	nv := Val{T: u.mkSlice(base.So, app("store", arr, al.idx, v.T), "0", ln, isnil), Ty: base.Ty, So: base.So}
 	u.assign(st, al.base, nv)
+}
+
+// zeroArray returns an (Array Int elem) that holds the zero value everywhere. A literal
+// constant array is used when the zero value is a literal (cvc5 requires that); otherwise a
+// declared array with a quantified axiom.
+func (u *Unit) zeroArray(elemSort, zero string) string {
+	if !strings.ContainsAny(zero, "_$") || zero == "false" || zero == "0" || zero == `""` {
+		return app(fmt.Sprintf("(as const (Array Int %s))", elemSort), zero)
+	}
+	name := "zeroarr_" + mangle(elemSort)
+	u.d.constant(name, "(Array Int "+elemSort+")")
+	u.d.axiom("zeroarr."+name, fmt.Sprintf("(forall ((i Int)) (! (= (select %s i) %s) :pattern ((select %s i))))", name, zero, name))
+	return name
 }
